@@ -199,12 +199,17 @@ class ProofStatus:
 def ensure_built(prop_id: str, extra_modules=()) -> ProofStatus:
     """Build everything from the files on disk, then audit the property's theorems."""
     st = ProofStatus()
-    ok, log = lake_build()
+    # build only what this property needs: the executable model/driver and its own proof modules
+    # (a broken obligation of another property must not alarm this one)
+    targets = ["driver", "FsProofs.%s" % prop_id] + list(extra_modules)
+    ok, log = lake_build(targets)
     st.built, st.build_log = ok, log
-    if not os.path.exists(DRIVER):
+    if not ok:
         # the driver must exist even when a proof module fails: build it alone
         with BuildLock():
-            _run(["lake", "build", "driver"], cwd=LEAN, timeout=3000)
+            rc, out = _run(["lake", "build", "driver"], cwd=LEAN, timeout=3000)
+        if rc != 0:
+            raise Infra("the model driver does not build:\n" + out[-2000:])
     st.forbidden = forbidden_tokens()
     files = [os.path.join(LEAN, "FsProofs", "%s.lean" % prop_id)]
     mods = ["FsProofs.%s" % prop_id]
